@@ -124,6 +124,14 @@ def bytes_to_blocks(
                     "Only support one line for all code units of an instruction"
                 )
 
+    # A jump into the middle of an instruction (behind its EXTENDED_ARG prefixes) or
+    # past the last instruction does not start a block, so it cannot be described
+    instruction_offsets = {offset for offset, _ in offsets_and_instruction}
+    invalid_targets = targets_set - instruction_offsets - {0}
+    if invalid_targets:
+        raise NotImplementedError(
+            f"Jump targets {sorted(invalid_targets)} are not the start of an instruction"
+        )
     # Compute a sorted list of target, to map each one to a bloc offset
     targets = sorted(targets_set)
     del targets_set
